@@ -365,15 +365,18 @@ and no `int32` overflow of `decodedLen` (`hD`):
 * when it breaks, the checkpoint it recorded is a token boundary `(q, o)` of the spec's walk
   (`Reach`), `decodedLen` counts exactly the bytes decoded up to there, and the end-of-block code
   still fits (`q + endCodeNBits ≤ 8 * maxEncodedLen`);
-* its only possible error is errInternalNoProgress. -/
+* its only possible error is errInternalNoProgress, with `decodedLen` untouched, and only while no
+  checkpoint exists (`hecn`: `endCodeNBits` is the length of the end-of-block code; `hbud`: an existing
+  checkpoint left room for it). -/
 theorem huffman_walk_tracks_spec (hl hd : Spec.Huff) (minL minD lo : Nat) (ll dl : Array Nat)
     (fuelS fuelC : Nat) (c : Cutter) (cp : Option (Nat × Nat)) (out : Bytes) (pE : Nat) (outE : Bytes)
-    (hc : c.OK) (ctx : BlockCtx c ll dl hl hd)
+    (hc : c.OK) (ctx : BlockCtx c ll dl hl hd) (hecn : c.endCodeNBits = ll.getD 256 0)
+    (hbud : cp ≠ none → c.bits.pos + c.endCodeNBits ≤ 8 * c.maxEncodedLen)
     (hspec : Spec.huffBlock hl hd minL minD c.bits.bytes none lo fuelS c.bits.pos out = .next pE outE)
     (hd0 : 0 ≤ c.decodedLen) (hD : c.decodedLen + (outE.size : Int) - (out.size : Int) < 2147483648)
     (hf : 8 * c.bits.bytes.size + 1 ≤ fuelC + c.bits.pos) :
     Tracks hl hd minL minD c cp c.decodedLen out pE outE (Cutter.huffLoop fuelC c cp c.decodedLen) :=
-  Cut.huffLoop_tracks hl hd minL minD lo ll dl fuelS fuelC c cp c.decodedLen out pE outE hc ctx rfl hspec hd0 hD hf
+  Cut.huffLoop_tracks hl hd minL minD lo ll dl fuelS fuelC c cp c.decodedLen out pE outE hc ctx rfl hecn hbud hspec hd0 hD hf
 
 /-- **The surgery of `doHuffman`** (replay): a run of tokens of `s` from `(p, out)` to the token
 boundary `(q, o)`, followed — in a buffer `s'` that has the same bits in `[p, q)` — by an end-of-block
